@@ -285,6 +285,12 @@ def mon_c14(c):
                 return 'iteration of a clone()/clone_from() copy (%s) visited %s: not every function once in %sdependency order' % (tag, o, 'reverse ' if rev else '')
     if c.obs.get('CEQ', '1') != '1':
         return 'a graph assigned with clone_from() does not compare equal to its source'
+    for tag, rev in (('NI', False), ('NR', True), ('ZI', False), ('ZR', True)):
+        if tag in c.obs:
+            o = parse_list(c.obs[tag], ' ')
+            if not respects(o, n, [(b, a, k) for (a, b, k) in e] if rev else e):
+                return ('%s with another iterator of the same graph alive (%s) visited %s: not every function once in %sdependency order'
+                        % ('iter_rev' if rev else 'iter', tag, o, 'reverse ' if rev else ''))
     for tag in ('PM1', 'PM2', 'PM3', 'PM4'):
         if tag in c.obs:
             o = parse_list(c.obs[tag], ' ')
